@@ -12,6 +12,7 @@ what a queue consumer returns for an element / a token / an empty queue, what `r
 an error arm of the connection parser produces, ...
 """
 from core import pl_key, op_place, op_const, call_name, switch_on_discr, bool_switch, CheckerError
+import re
 import symex
 
 
@@ -185,6 +186,11 @@ class Explorer:
         self.paths = []
 
     # -- switch handling ---------------------------------------------------------------------
+    def _plain_enum(self, adt):
+        facts = getattr(self.f, "facts", None)
+        a = facts.adts.get(adt) if facts is not None and adt else None
+        return a is not None and a.get("kind") == "Enum" and all(not v["fields"] for v in a["variants"])
+
     def _switch_targets(self, bb, st):
         """-> list of (target, refine or None, cond descr)"""
         f = self.f
@@ -201,19 +207,34 @@ class Explorer:
             key = st.resolve_key(pl_key(rv["pl"]))
             cur = st.read_key(key)
             name = variant_of(cur)
+            adt = rv.get("adt")
+            cur_d = None
+            tk = None
+            if name is None:
+                # a plain value -- of a field-less enum of the crate, or an Option of a number -- that is the result of a call or what a
+                # place held on entry: copies of it (in a tuple, in another local, in an argument bundle) are the same value, so a match on
+                # one copy agrees with an earlier match on another
+                cur_d = deep(st, cur)
+                if cur_d and cur_d[0] == "call" and self._plain_enum(adt):
+                    tk = "variant:" + repr(cur_d)
+                elif cur_d and cur_d[0] == "init" and isinstance(cur_d[1], tuple) and (self._plain_enum(adt) or
+                        (adt == "std::option::Option" and re.match(r"^std::option::Option<([ui](8|16|32|64|128|size)|bool)>$", st.type_of_key(cur_d[1]) or ""))):
+                    tk = "variant:" + repr(cur_d)
+                if tk is not None and tk in getattr(st, "assumed", {}):
+                    name = st.assumed[tk]
             if name is not None:
                 tg = m.get(name, otherwise if name in rest or name not in m else None)
                 if tg is None:
                     tg = otherwise
                 return [(tg, None, None)]
             out = []
-            adt = rv.get("adt")
-            cur_d = deep(st, cur)
+            if cur_d is None:
+                cur_d = deep(st, cur)
             for n, tg in m.items():
-                out.append((tg, (key, n, adt, cur_d), ("variant", key, n, cur_d)))
+                out.append((tg, (key, n, adt, cur_d, tk), ("variant", key, n, cur_d)))
             if rest or not m:
                 for n in rest:
-                    out.append((otherwise, (key, n, adt, cur_d), ("variant", key, n, cur_d)))
+                    out.append((otherwise, (key, n, adt, cur_d, tk), ("variant", key, n, cur_d)))
                 if not rest:
                     out.append((otherwise, None, ("variant", key, "?", cur_d)))
             return out
@@ -257,10 +278,41 @@ class Explorer:
         vals = [x for x, _ in t["targets"]]
         is_bool = t.get("dty") == "bool"
         v = deep(st, v)
+        # a test of the variant of a plain value held on entry (`len.is_some()` on a copy of a field): it agrees with what an earlier
+        # match on another copy of that value found
+        vt = vf = tkd = None
+        if is_bool:
+            vt, vf = discr_test(v, True), discr_test(v, False)
+            x = (vt or vf)[3] if (vt or vf) else None
+            if x and x[0] == "init" and isinstance(x[1], tuple):
+                ty = st.type_of_key(x[1]) or ""
+                if re.match(r"^std::option::Option<([ui](8|16|32|64|128|size)|bool)>$", ty) or self._plain_enum(re.sub(r"<.*$", "", ty)):
+                    tkd = "variant:" + repr(x)
+            if tkd is not None and tkd in known:
+                nm = known[tkd]
+                iv = None
+                if vt is not None and vt[2] == nm:
+                    iv = 1
+                elif vf is not None and vf[2] == nm:
+                    iv = 0
+                elif vt is not None and vf is None:
+                    iv = 0
+                elif vf is not None and vt is None:
+                    iv = 1
+                if iv is not None:
+                    for val, tg in t["targets"]:
+                        if val == iv:
+                            return [(tg, None, None)]
+                    return [(t["otherwise"], None, None)]
         def asm(val):
+            extra = []
+            if tkd is not None and val in (0, 1):
+                vc = vt if val == 1 else vf
+                if vc is not None:
+                    extra = [(tkd, vc[2])]
             if canon is not None and val in (0, 1):
-                return ("assume2", k, val, canon[0], val ^ (1 if canon[1] else 0))
-            return ("assume", k, val)
+                return ("assumeN", [(k, val), (canon[0], val ^ (1 if canon[1] else 0))] + extra)
+            return ("assumeN", [(k, val)] + extra)
         def cond(val):
             # `x.is_some()` / `matches!(x, V)` compiled to a comparison of the discriminant with a constant: record it as what it is,
             # a test of the variant of x
@@ -282,6 +334,12 @@ class Explorer:
     def _apply_refine(st, refine):
         if refine is None:
             return
+        if refine[0] == "assumeN":
+            st.__dict__.setdefault("assumed", {})
+            st.assumed = dict(st.assumed)
+            for k_, v_ in refine[1]:
+                st.assumed[k_] = v_
+            return
         if refine[0] in ("assume", "assume2"):
             st.__dict__.setdefault("assumed", {})
             st.assumed = dict(st.assumed)
@@ -289,7 +347,11 @@ class Explorer:
             if refine[0] == "assume2":
                 st.assumed[refine[3]] = refine[4]
             return
-        key, name, adt, cur = refine
+        key, name, adt, cur = refine[:4]
+        if len(refine) > 4 and refine[4] is not None:
+            st.__dict__.setdefault("assumed", {})
+            st.assumed = dict(st.assumed)
+            st.assumed[refine[4]] = name
         if adt == "std::option::Option":
             st.write_key(key, ("none",) if name == "None" else ("some", ("payload", cur, "Some", "0")))
         else:
@@ -458,6 +520,90 @@ def io_model(bb, t, args, st):
                 r = not r
             return ("const", r, str(r).lower(), None)
     return None
+
+
+def freeze(st, v):
+    """the term with every reference into the state `st` replaced by what it points to (so that it can be handed to an evaluation of its own)"""
+    v = deep(st, v)
+    def conv(x, d=0):
+        if not isinstance(x, tuple) or d > 30:
+            return x
+        if x and x[0] == "ref*":
+            return ("constref", conv(x[1], d + 1))
+        return tuple(conv(y, d + 1) if isinstance(y, tuple) else ([conv(z, d + 1) for z in y] if isinstance(y, list) else ({k: conv(z, d + 1) for k, z in y.items()} if isinstance(y, dict) else y)) for y in x)
+    return conv(v)
+
+
+def eval_closure(facts, clo, args, on_call=None):
+    """the value a closure of the crate returns for these (frozen) arguments, when every path returns the same one; None otherwise"""
+    import inline, symex
+    import queue_rules as Q
+    if not (clo and clo[0] == "closure" and clo[1] in facts.fns):
+        return None
+    g0 = facts.fns[clo[1]]
+    cache = facts.__dict__.setdefault("_closure_inl", {})
+    if clo[1] not in cache:
+        cache[clo[1]] = inline.inlined(facts, clo[1], stop=lambda d: facts.fns[d].rec.get("local") and facts.fns[d].file != g0.file, extern_ok=Q.std_small)
+    g = cache[clo[1]]
+    st = symex.Sym(g)
+    st.write_key((1, "*") if g.local_ty(1).startswith("&") else (1,), clo)
+    for i, a in enumerate(args):
+        st.write_key((2 + i,), a)
+    rets = {repr(r): r for r in (deep(p.state, p.ret()) for p in explore(g, 0, st, on_call=on_call, max_paths=64) if p.end[0] == "return")}
+    return list(rets.values())[0] if len(rets) == 1 else None
+
+
+def table_model(facts, inner=None):
+    """on_call model: searching a table whose contents are known (a `const` array, a literal array) with a closure of the crate --
+    `TABLE.iter().find(|e| ..)`, `position`, `any`, `all`, `find_map` -- is evaluated element by element, in order, when the closure's
+    answer is decided for every element examined.  Anything else is left to `inner`."""
+    def elements(st, it):
+        v = deep(st, it)
+        while v and v[0] == "ref*":
+            v = v[1]
+        if not (v and v[0] == "call" and re.search(r"core::slice::<impl \[T\]>::iter$|<&'a \[T(; N)?\] as std::iter::IntoIterator>::into_iter$|<\[T; N\] as std::iter::IntoIterator>::into_iter$", v[1]) and v[2]):
+            return None
+        a = v[2][0]
+        while a and a[0] in ("ref*", "constref"):
+            a = a[1]
+        if a and a[0] == "aggx" and a[1] == "array":
+            return list(a[2])
+        return None
+    def on_call(bb, t, args, st):
+        n = call_name(t)
+        m = re.search(r"<std::slice::Iter<'a, T> as std::iter::Iterator>::(find|position|any|all|find_map)$", n)
+        if m and len(args) == 2:
+            els = elements(st, args[0])
+            clo = freeze(st, args[1])
+            if els is not None and clo and clo[0] == "closure":
+                op = m.group(1)
+                for i, e in enumerate(els):
+                    e = freeze(st, e)
+                    arg = ("constref", ("constref", e)) if op == "find" else ("constref", e)
+                    r = eval_closure(facts, clo, [arg], on_call=on_call)
+                    if r is None:
+                        break
+                    if op == "find_map":
+                        if r[0] == "some":
+                            return r
+                        if r[0] != "none":
+                            break
+                        continue
+                    c = const_of(r)
+                    if not isinstance(c, bool):
+                        break
+                    if op == "find" and c:
+                        return ("some", ("constref", e))
+                    if op == "position" and c:
+                        return ("some", ("const", i, "%d_usize" % i, None))
+                    if op == "any" and c:
+                        return ("const", True, "true", None)
+                    if op == "all" and not c:
+                        return ("const", False, "false", None)
+                else:
+                    return {"find": ("none",), "position": ("none",), "find_map": ("none",), "any": ("const", False, "false", None), "all": ("const", True, "true", None)}[op]
+        return inner(bb, t, args, st) if inner else None
+    return on_call
 
 
 def head_call(x, depth=0):
